@@ -118,6 +118,16 @@ def resultTo (r : Except Err (List (List Comp.Op))) (infos coros : List (Option 
   | .ok ops => Json.mkObj [("ok", Json.mkObj [("ops", jList (jList opTo) ops), ("infos", jList (jOpt Json.str) infos),
       ("coros", jList (jOpt Json.str) coros)])]
 
+def stmtKind : Stmt → String
+  | .op .. => "op" | .inl .. => "inline ctx" | .with_ .. => "with" | .label _ => "label" | .jump _ => "jump" | .call _ => "call"
+  | .ret => "return" | .end_ => "end" | .hold => "hold" | .brk => "break" | .cont => "continue" | .brkLoop => "break_loop"
+  | .ite .. => "if" | .switch .. => "switch" | .forever .. => "forever" | .while_ .. => "while" | .for_ .. => "for" | .macroCall .. => "macro call"
+
+def lastKind : Stmts → String
+  | .nil => "nothing"
+  | .cons s .nil => stmtKind s
+  | .cons _ r => lastKind r
+
 mutual
 /-- diagnostics only: why a statement is outside `cgStmt 5` (empty = inside; a macro call is outside `cgStmt 4`) -/
 def whyStmt : Stmt → String
@@ -130,7 +140,7 @@ def whyStmt : Stmt → String
     let b := whyElifs elifs; if b != "" then b else whyStmts els
   | .switch hdr cs =>
     if !nameOK hdr.name then "switch header name " ++ hdr.name else if Beh.endsFlow hdr.name then "switch header ends flow"
-    else if countDefaults cs > 1 then "two defaults" else whyCases hdr.name true cs
+    else if countDefaults cs > 1 then "two defaults" else whyCases hdr.name true "" cs
   | .forever body => whyStmts body
   | .while_ _ h body => if !ESV.Beh.isTest h.name then "while header" else whyStmts body
   | .for_ init h inc body =>
@@ -144,12 +154,13 @@ def whyElifs : Elifs → String
   | .cons _ hdrs body r =>
     if !hdrs.all (fun h => ESV.Beh.isTest h.name) then "elseif header" else
     let a := whyStmts body; if a != "" then a else whyElifs r
-def whyCases (sw : String) (nf : Bool) : Cases → String
+def whyCases (sw : String) (nf : Bool) (prev : String) : Cases → String
   | .nil => ""
   | .cons d name _ body r =>
     if !(d || (ESV.Beh.isTest name && ESV.Beh.isTest (caseName sw name))) then "case name " ++ name
-    else if loneExit body && !d && !nf then "lone exit case block, fall-in possible"
-    else let a := whyStmts body; if a != "" then a else whyCases sw (if body.isNil then nf else endsFlowStmts body) r
+    else if loneExit body && !d && !nf then "lone exit case block, fall-in possible; block before ends in " ++ prev
+    else let a := whyStmts body; if a != "" then a else whyCases sw (if body.isNil then nf else (endsFlowStmts body || surelyFallsStmts body))
+      (if body.isNil then prev else lastKind body) r
 end
 
 def handle (op : String) (j : Json) : R Json := do
